@@ -347,7 +347,189 @@ def fam_calls(agg, h, method):
                             agg.outcomes["calls-agree"] += 1
 
 
-FAMILIES = {"grid": fam_grid, "floats": fam_floats, "patterns": fam_patterns, "applies": fam_applies, "tuplekeys": fam_tuplekeys, "calls": fam_calls}
+class _Boom(Exception):
+    pass
+
+
+def fam_stateful(agg, h, method):
+    """custom functions that are NOT pure: they raise on some group (TypeError / ValueError / a class of their own - at a group
+    holding None, at the n-th call), or number their calls from a shared counter.
+    aggregate: the exception reaches the caller, and no group has been handed to the function twice before it does ("exactly once");
+    window   : given fresh functions of the same kind, window's values equal aggregate's values joined back to the rows, and it
+               fails with the same exception class when aggregate fails."""
+    from serif import Table, Vector
+    keysets = [["a", "b", "a", "b", "a"], ["a", "a", "b"], ["b", "a", "b", "a"], ["a", "b", "c"]]
+    valsets = [[5, 3, None, 1, 4], [3, None, 2], [2, None, 1, None], [1, 2, 3]]
+    excs = {"TypeError": TypeError, "ValueError": ValueError, "KeyError": KeyError, "own-class": _Boom}
+
+    def fresh(kind, exc, calls):
+        """one or two functions of the named kind, recording into `calls`"""
+        state = {"n": 0}
+        if kind == "raises-on-None":
+            def f(xs):
+                calls.append(("f", list(xs)))
+                if any(x is None for x in xs):
+                    raise exc("no None please")
+                return len(list(xs))
+            return {"r": ("v", f)}
+        if kind == "raises-on-2nd-call":
+            def f(xs):
+                calls.append(("f", list(xs)))
+                state["n"] += 1
+                if state["n"] == 2:
+                    raise exc("second call")
+                return state["n"]
+            return {"r": ("v", f)}
+        if kind == "python-max":          # the builtin itself: max([3, None]) raises TypeError
+            def f(xs):
+                calls.append(("f", list(xs)))
+                return max(xs)
+            return {"r": ("v", f)}
+        if kind == "shared-counter":
+            def f(xs):
+                calls.append(("f", list(xs))); state["n"] += 1
+                return state["n"]
+
+            def g(xs):
+                calls.append(("g", list(xs))); state["n"] += 1
+                return state["n"] * 100
+            return {"first": ("v", f), "second": ("v", g)}
+        if kind == "two-that-fail-on-different-groups":
+            def f(xs):
+                calls.append(("f", list(xs)))
+                if len(calls) and list(xs) and list(xs)[0] == vs_first_of_second_group[0]:
+                    raise TypeError("f fails on the second group")
+                return 1
+
+            def g(xs):
+                calls.append(("g", list(xs)))
+                if list(xs) and list(xs)[0] == vs_first_of_first_group[0]:
+                    raise ValueError("g fails on the first group")
+                return 2
+            return {"first": ("v", f), "second": ("v", g)}
+        raise KeyError(kind)
+
+    for ks, vs in zip(keysets, valsets):
+        keys = [(k,) for k in ks]
+        groups = gs.groups_of(keys)
+        gvals = [[vs[i] for i in rows] for _, rows in groups]
+        vs_first_of_first_group = [gvals[0][0]]
+        vs_first_of_second_group = [gvals[1][0]] if len(gvals) > 1 else [object()]
+        plans = [("raises-on-None", n_) for n_ in excs] + [("raises-on-2nd-call", n_) for n_ in excs] + [("python-max", "TypeError"), ("shared-counter", None),
+                 ("two-that-fail-on-different-groups", None)]
+        for kind, en in plans:
+            exc = excs.get(en, TypeError)
+            case = {"family": "custom functions that raise or count their calls", "keys": ks, "values": vs, "functions": kind, "exception": en, "method": method}
+            agg.evals += 1; agg.transitions += 2; agg.states += 1; agg.nontrivial += 1; agg.compared += 1
+
+            def run(meth):
+                calls = []
+                t = Table([Vector(list(ks), name="k0"), Vector(list(vs), name="v")])
+                try:
+                    res = getattr(t, meth)(over="k0", apply=fresh(kind, exc, calls))
+                    out = ("ok", [(c._name, list(c._underlying)) for c in res._underlying])
+                except Exception as e:
+                    out = ("raises", type(e).__name__)
+                return out, calls
+            a_out, a_calls = run("aggregate")
+            if method == "aggregate":
+                # which groups does a correct aggregate hand to f before the exception (if any) stops it: every group at most once
+                per_fn = {}
+                for fn, xs in a_calls:
+                    per_fn.setdefault(fn, []).append(xs)
+                twice = [(fn, xs) for fn, lst in per_fn.items() for xs in lst if lst.count(xs) > [g for g in gvals].count(xs)]
+                not_groups = [(fn, xs) for fn, xs in a_calls if xs not in gvals]
+                must_raise = None
+                if kind == "raises-on-None" and any(None in g for g in gvals):
+                    must_raise = exc.__name__
+                elif kind == "raises-on-2nd-call" and len(gvals) >= 2:
+                    must_raise = exc.__name__
+                elif kind == "python-max" and any(None in g and len(g) > 1 for g in gvals):
+                    must_raise = "TypeError"
+                if not_groups:
+                    agg.violation(V("aggregate.stateful", "function-called-with-something-that-is-not-a-groups-values", case, gvals, not_groups[:3]))
+                elif twice:
+                    agg.violation(V("aggregate.stateful", "function-called-twice-for-one-group", case, gvals, a_calls))
+                elif must_raise and a_out != ("raises", must_raise):
+                    agg.violation(V("aggregate.stateful", "exception-of-the-custom-function-does-not-reach-the-caller", case, ("raises", must_raise), a_out))
+                elif kind == "shared-counter" and a_out[0] != "ok":
+                    agg.violation(V("aggregate.stateful", "raises", case, "ok", a_out))
+                else:
+                    agg.outcomes["stateful-agree"] += 1
+                continue
+            w_out, w_calls = run("window")
+            if a_out[0] == "raises" or w_out[0] == "raises":
+                if a_out != w_out:
+                    agg.violation(V("window.stateful", "fails-differently-from-aggregate", case, a_out, w_out))
+                else:
+                    agg.outcomes["stateful-agree"] += 1
+                continue
+            # aggregate joined back to the rows
+            acols = dict(a_out[1])
+            gkeys = acols["k0"]
+            want = []
+            for nm, col in a_out[1]:
+                if nm == "k0":
+                    continue
+                want.append((nm, [col[gkeys.index(k)] for k in ks]))
+            got = [(nm, col) for nm, col in w_out[1] if nm not in ("k0", "v")]
+            if got != want:
+                agg.violation(V("window.stateful", "values-differ-from-aggregate-joined-back", case, want, got))
+            else:
+                agg.outcomes["stateful-agree"] += 1
+
+
+def fam_numerics(agg, h, method):
+    """value columns of the less common numeric types - Fraction, Decimal, complex: sum / mean / min / max / count are the exact
+    textbook values IN THAT TYPE (a Fraction mean is a Fraction, not a rounded float); every arrangement of 3 values + None over
+    every grouping of <= 3 rows into two keys.  window is compared with aggregate joined back."""
+    from fractions import Fraction as F
+    from decimal import Decimal as D
+    from serif import Table, Vector
+    palettes = {"Fraction": [F(1, 3), F(5, 2), F(1, 7), None], "Decimal": [D("0.5"), D("2.25"), D("0.1"), None], "complex": [1 + 2j, 3j, 2 + 0j, None]}
+    fns = {"sum": lambda c: sum(c[1:], c[0]) if c else 0, "mean": lambda c: (sum(c[1:], c[0]) / len(c)) if c else None,
+           "min": lambda c: min(c) if c else None, "max": lambda c: max(c) if c else None, "count": lambda c: len(c)}
+    for tname, pal in palettes.items():
+        for n in (1, 2, 3):
+            for vals in itertools.product(pal, repeat=n):
+                for ks in itertools.product(["a", "b"], repeat=n):
+                    if ks[0] != "a":
+                        continue
+                    groups = gs.groups_of([(k,) for k in ks])
+                    agg.states += 1
+                    for fn, ref in fns.items():
+                        if tname == "complex" and fn in ("min", "max"):
+                            continue
+                        case = {"family": "Fraction / Decimal / complex values", "type": tname, "keys": list(ks), "values": [repr(v) for v in vals], "function": fn, "method": method}
+                        agg.evals += 1; agg.transitions += 1; agg.compared += 1
+                        if None in vals:
+                            agg.nontrivial += 1
+                        want = [ref([vals[i] for i in rows if vals[i] is not None]) for _, rows in groups]
+                        try:
+                            t = Table([Vector(list(ks), name="k0"), Vector(list(vals), name="v")])
+                            a = list(t.aggregate(over="k0", **{fn + "_over": "v"})._underlying[-1]._underlying)
+                            w = list(t.window(over="k0", **{fn + "_over": "v"})._underlying[-1]._underlying) if method == "window" else None
+                        except Exception as e:
+                            if all(v is None for v in vals):
+                                agg.skipped["all-None-column-of-unknown-type"] += 1
+                                continue
+                            agg.violation(V(f"{method}.numerics", "raises-" + type(e).__name__, case, [repr(x) for x in want], repr(e)[:100]))
+                            continue
+                        if method == "aggregate":
+                            if [repr(x) for x in a] != [repr(x) for x in want]:
+                                agg.violation(V("aggregate.numerics", "not-the-exact-textbook-value-in-the-columns-own-type", case, [repr(x) for x in want], [repr(x) for x in a]))
+                            else:
+                                agg.outcomes["numerics-agree"] += 1
+                        else:
+                            gk = [k for (k,), _ in groups]
+                            back = [a[gk.index(k)] for k in ks]
+                            if [repr(x) for x in w] != [repr(x) for x in back]:
+                                agg.violation(V("window.numerics", "values-differ-from-aggregate-joined-back", case, [repr(x) for x in back], [repr(x) for x in w]))
+                            else:
+                                agg.outcomes["numerics-agree"] += 1
+
+
+FAMILIES = {"numerics": fam_numerics, "stateful": fam_stateful, "grid": fam_grid, "floats": fam_floats, "patterns": fam_patterns, "applies": fam_applies, "tuplekeys": fam_tuplekeys, "calls": fam_calls}
 
 
 def run_extra_unit(unit, method):
